@@ -213,3 +213,113 @@ def ws_scripts(seed, n):
     rng = random.Random(seed)
     return [gen_ws_script(rng) for _ in range(n)]
 
+
+
+# ---- threaded client, websocket transport (EioClientFine) ------------------------------------
+
+def run_client(k, srv, seed):
+    """The real threaded Client connected over a fake websocket to a scripted server end.  One
+    application thread makes k send() calls and then disconnect(); the server end closes the
+    transport when it has read the client's CLOSE frame, and (srv = True) may also disconnect on
+    its own.  Everything runs on a pre-emptive hub; hub.primlog gets one record per primitive of
+    the send queue and of the websocket."""
+    from . import cworld as CW
+    w = CW.make_client_world('sync', {}, seed=seed, preempt=True)
+    facts = {'script': {'k': k, 'srv': srv}, 'schedule_seed': seed}
+    try:
+        hub = w.hub
+        cid = w.app_connect('ws')
+        w.calls[cid]['task'].proc = 'conn'
+        hub.child_proc = {('conn', '_write_loop'): 'wr', ('conn', '_read_loop_websocket'): 'rd'}
+        w.quiesce()
+        w.ws_accept(True)
+        w.quiesce()
+        w.ws_deliver(CW.open_wire('SID1', False, 4000, 4000, 'ok'))
+        w.quiesce()
+        cl = w.client
+        if cl.state != 'connected':
+            raise RuntimeError('client did not connect')
+        cq = cl.queue
+        conn = w.conns[-1]
+        hub.primlog = []
+        log0 = hub.primlog
+
+        def env(op):
+            log0.append({'t': 'env', 'op': op, 'item': '', 'q': 'env'})
+
+        def server_task():
+            # the server end as a task of its own, so that it interleaves with the client's
+            # threads: closes the transport once it has read a CLOSE frame
+            for _ in range(100000):
+                if conn['state'] != 'open':
+                    return
+                if any(o.get('k') == 'wstx' and o.get('f') == 'CLOSE' for o in w.out):
+                    env('srv_closed')
+                    w.ws_close()
+                    return
+                if all(t.done or t.blocked_on for t in (t_app, t_wr, t_rd) if t is not None):
+                    # the client's threads are all blocked or finished: nothing more can be
+                    # sent unless something wakes them, and only this task could
+                    if not any(t is not None and not t.done and t.blocked_on and
+                               t.blocked_on[0] == 'queue' for t in (t_wr,)):
+                        return
+                    return
+                hub.yield_now()
+        w.out = []
+        acc = []
+        t_app = w.calls[w.app_burst(k, 1, acc, then_disconnect=True)]['task']
+        t_app.proc = 'app'
+        t_wr = next((t for t in hub.tasks if getattr(t, 'proc', None) == 'wr'), None)
+        t_rd = next((t for t in hub.tasks if getattr(t, 'proc', None) == 'rd'), None)
+        st = hub.spawn(server_task, name='server')
+        if srv:
+            def server_disc():
+                for _ in range(hub.rng.randrange(0, 12)):
+                    hub.yield_now()
+                if conn['state'] == 'open' and not conn['inq'].items:
+                    # one atomic environment event: the CLOSE frame and the closure are both
+                    # in the client's receive buffer before anybody runs
+                    env('srv_disconnects')
+                    conn['state'] = 'closed'
+                    conn['inq'].items.append(CW.pkt_frame('CLOSE'))
+                    conn['inq'].unfinished_tasks += 1
+                    conn['inq'].put(CW._CLOSED)
+            hub.spawn(server_disc, name='serverdisc')
+        for _ in range(200):
+            w.quiesce()
+            nd = hub.next_deadline()
+            if nd is None or nd > hub.now:      # only real timers left
+                break
+            hub.fire_due()
+        log = []
+        for e in hub.primlog:
+            if e['op'] == 'task_done':
+                continue
+            if e['op'] == 'ret':
+                if e['t'] in ('app', 'wr', 'rd'):
+                    log.append({'t': e['t'], 'op': 'ret', 'item': ''})
+                continue
+            if e['q'] == 'env':
+                log.append({'t': 'env', 'op': e['op'], 'item': ''})
+                continue
+            if e['q'] == 'ws':
+                if e['t'] is None:
+                    raise RuntimeError('websocket primitive outside the three tasks: %r' % e['op'])
+                log.append({'t': e['t'], 'op': e['op'], 'item': e['item'] or ''})
+                continue
+            if e['q'] is not cq:
+                continue
+            if e['t'] is None:
+                raise RuntimeError('queue primitive outside the three tasks: %r' % e['op'])
+            it = e['item']
+            if e['op'] in ('put', 'get', 'put_enter'):
+                it = w._tok_of_pkt(it)
+            log.append({'t': e['t'], 'op': e['op'], 'item': it if it is not None else ''})
+        hub.primlog = None
+        evs = [e[5:] for e in w.events if e.startswith('disc:')]
+        final = {'st': cl.state, 'ev': evs,
+                 'tx': [o['f'] for o in w.out if o.get('k') == 'wstx'],
+                 'q': [w._tok_of_pkt(x) for x in cq.items]}
+        return {'log': log, 'final': final}, facts
+    finally:
+        w.close()
